@@ -1,7 +1,13 @@
 // Helpers for quantifiers over slice positions (see the "forall" case in trans.go).
 package main
 
-import "strings"
+import (
+	"fmt"
+	"go/token"
+	"strings"
+
+	"golang.org/x/tools/go/ssa"
+)
 
 // the binder "(q_i sort)" ranges over 64-bit integers / mathematical integers
 func so64(b string) bool {
@@ -106,6 +112,84 @@ func (g *Gen) needPow2() {
 	}
 	g.prelSeen["pow2"] = true
 	g.prel = append(g.prel, "(declare-fun pow2 (Int) Int)")
-	g.assumeAlways("(forall ((n Int)) (! (=> (>= n 0) (>= (pow2 n) 1)) :pattern ((pow2 n))))")
-	g.assumeAlways("(and (= (pow2 0) 1) (= (pow2 1) 2) (= (pow2 8) 256) (= (pow2 63) 9223372036854775808) (= (pow2 64) 18446744073709551616))")
+	g.assumeGlobal("(forall ((n Int)) (! (=> (>= n 0) (>= (pow2 n) 1)) :pattern ((pow2 n))))")
+	g.assumeGlobal("(and (= (pow2 0) 1) (= (pow2 1) 2) (= (pow2 8) 256) (= (pow2 63) 9223372036854775808) (= (pow2 64) 18446744073709551616))")
+}
+
+// monotoneCounter: phi is the index of a `range` loop over a slice/array/string as go/ssa builds it:
+// one edge is the constant start value (-1), the other is phi + 1. The loop condition keeps the index
+// below the length, so it never wraps and stays >= the start value.
+func monotoneCounter(phi *ssa.Phi) (int64, bool) {
+	lo, _, ok := rangeCounter(phi)
+	return lo, ok
+}
+
+// rangeCounter also returns the loop bound n of the header test `phi + 1 < n` (nil if not found):
+// at the loop head  start <= phi < n  (or phi == start when n <= 0).
+func rangeCounter(phi *ssa.Phi) (int64, ssa.Value, bool) {
+	lo, ok := rangeCounter0(phi)
+	if !ok {
+		return 0, nil, false
+	}
+	for _, in := range phi.Block().Instrs {
+		if b, ok := in.(*ssa.BinOp); ok && b.Op == token.LSS {
+			if inc, ok := b.X.(*ssa.BinOp); ok && inc.Op == token.ADD && inc.X == ssa.Value(phi) {
+				return lo, b.Y, true
+			}
+		}
+	}
+	return lo, nil, true
+}
+
+func rangeCounter0(phi *ssa.Phi) (int64, bool) {
+	if phi.Comment != "rangeindex" || len(phi.Edges) != 2 {
+		return 0, false
+	}
+	var start *ssa.Const
+	var inc *ssa.BinOp
+	for _, e := range phi.Edges {
+		switch x := e.(type) {
+		case *ssa.Const:
+			start = x
+		case *ssa.BinOp:
+			inc = x
+		}
+	}
+	if start == nil || inc == nil || inc.Op != token.ADD || inc.X != ssa.Value(phi) {
+		return 0, false
+	}
+	c, ok := inc.Y.(*ssa.Const)
+	if !ok || c.Int64() != 1 {
+		return 0, false
+	}
+	return start.Int64(), true
+}
+
+// newRefNumeral: the reference of an object allocated by the function under verification: a distinct
+// numeral >= refBound that is not an embedded sub-object (fldtag 0).
+func (g *Gen) newRefNumeral() string {
+	n := fmt.Sprintf("%d", 1000000000+g.nfresh)
+	g.needFldTag()
+	g.assumeGlobal(fmt.Sprintf("(= (fldtag %s) 0)", n))
+	return n
+}
+
+// fldtag(ref) is the code of the (struct type, field) an embedded sub-object reference was derived
+// from, 0 for whole objects allocated during the function: different codes => different references.
+func (g *Gen) needFldTag() {
+	if g.prelSeen["fldtag"] {
+		return
+	}
+	g.prelSeen["fldtag"] = true
+	g.prel = append(g.prel, "(declare-fun fldtag (Int) Int)")
+}
+
+var fldCodes = map[string]int{}
+
+func fldCode(fn string) int {
+	if c, ok := fldCodes[fn]; ok {
+		return c
+	}
+	fldCodes[fn] = len(fldCodes) + 1
+	return fldCodes[fn]
 }
